@@ -37,6 +37,14 @@ pub enum StaticCase {
     Composite(crate::checks::composite::CompositeCase),
     /// in-degrees of 2^16 and beyond, grounded-based problems only (C01-C03)
     HugeFan(crate::checks::hugefan::HugeFan),
+    /// one irregular graph of 14-24 arguments, judged by the backtracking reference (`Fams::new_medium`)
+    Medium(GraphCase),
+}
+
+/// Irregular graphs of 14-24 arguments (sparse random, cycles with chords, clusters, fans), mostly one
+/// connected component: beyond the brute force, within the backtracking reference.
+pub fn medium_strategy() -> BoxedStrategy<GraphCase> {
+    (gen::graph_single(24).prop_filter("14 arguments at least", |g| g.n >= 14), gen::pres(24)).prop_map(|(g, pres)| GraphCase { g, pres }).boxed()
 }
 
 pub fn composite_strategy(tier: Tier) -> BoxedStrategy<crate::checks::composite::CompositeCase> {
@@ -561,7 +569,8 @@ impl Prop for Statics {
                 let composite = composite_strategy(tier).prop_map(StaticCase::Composite);
                 let gated = gated_rare_strategy(tier).prop_map(StaticCase::Composite);
                 let dense = gated_dense_strategy(tier).prop_map(StaticCase::Composite);
-                prop_oneof![120 => small, 2 => big, 1 => composite, 1 => gated, 2 => dense].boxed()
+                let medium = medium_strategy().prop_map(StaticCase::Medium);
+                prop_oneof![120 => small, 2 => big, 1 => composite, 1 => gated, 2 => dense, 2 => medium].boxed()
             }
             Which::C01 => prop_oneof![
                 1600 => gen::graph_case(nmax).prop_map(StaticCase::Small),
@@ -569,6 +578,7 @@ impl Prop for Statics {
                 4 => gated_rare_strategy(tier).prop_map(StaticCase::Composite),
                 8 => gated_dense_strategy(tier).prop_map(StaticCase::Composite),
                 1 => crate::checks::hugefan::strategy().prop_map(StaticCase::HugeFan),
+                12 => medium_strategy().prop_map(StaticCase::Medium),
             ]
             .boxed(),
             _ => prop_oneof![
@@ -577,6 +587,7 @@ impl Prop for Statics {
                 4 => gated_rare_strategy(tier).prop_map(StaticCase::Composite),
                 8 => gated_dense_strategy(tier).prop_map(StaticCase::Composite),
                 1 => crate::checks::hugefan::strategy().prop_map(StaticCase::HugeFan),
+                5 => medium_strategy().prop_map(StaticCase::Medium),
             ]
             .boxed(),
         }
@@ -598,12 +609,23 @@ impl Prop for Statics {
                 v.push(StaticCase::Small(GraphCase { g, pres: Pres::Direct { offset: 0, order_keys: vec![] } }));
             }
         }
-        (v, format!("all digraphs (self-attacks included) on 0..={} labelled arguments, direct presentation", max))
+        if self.which != Which::C04 {
+            // grounded reasoning over 2^20 + 12 arguments (counters and queues of 20 bits)
+            v.push(StaticCase::HugeFan(crate::checks::hugefan::HugeFan {
+                core: AbsGraph { n: 4, att: vec![(0, 1), (1, 2), (2, 3)] },
+                target: 0,
+                k: (1 << 20) + 7,
+                defeated: 5,
+                repeated_line: false,
+                attacker_defeated: false,
+            }));
+        }
+        (v, format!("all digraphs (self-attacks included) on 0..={} labelled arguments, direct presentation; one fan of 2^20+7 attackers (grounded problems)", max))
     }
 
     fn run(&self, scase: &StaticCase, rec: &mut Rec) -> CheckResult {
         let case = match scase {
-            StaticCase::Small(c) => c,
+            StaticCase::Small(c) | StaticCase::Medium(c) => c,
             StaticCase::Big(mc) => {
                 let (n, checked) = crate::checks::metamorphic::certificates_on_big(mc)?;
                 if checked > 0 {
@@ -620,7 +642,20 @@ impl Prop for Statics {
             StaticCase::HugeFan(h) => return crate::checks::hugefan::run_grounded(self.id(), h, rec),
         };
         let g = G::new(case.g.n, &case.g.att_usize());
-        let fams = Fams::new(&g);
+        let fams = if g.n > 13 {
+            match Fams::new_medium(&g) {
+                Some(f) => {
+                    rec.class("medium-size-graph-judged-by-backtracking-reference");
+                    f
+                }
+                None => {
+                    rec.class("medium-size-graph-skipped-too-many-extensions");
+                    return Ok(());
+                }
+            }
+        } else {
+            Fams::new(&g)
+        };
         let cx = Ctx {
             case,
             n_components: g.components().len(),
